@@ -13,4 +13,33 @@ def prove(tier, seed):
     planted = selfcheck.planted("C18", tier, S)
     sc = selfcheck.standard(records, names)
     sc["planted_bugs_all_refuted"] = {"ok": planted["tried"] == planted["refuted"], "detail": planted}
-    return dict(records=records, functions=S.info(names), instances=len(tasks), planted=planted, selfchecks=sc, wall=wall)
+    out = dict(records=records, functions=S.info(names), instances=len(tasks), planted=planted, selfchecks=sc, wall=wall)
+    return _bilinear(out, tier)
+
+
+def _bilinear(out, tier):
+    """E1-array/bilinear: the full projectors equal (1/p!) sum_sigma [sgn] W_sigma for all d (p = 2, 3; 4 in the thorough tier), and the
+    statements of the property as lemmas over that postcondition"""
+    from props import C18_bilinear as B
+
+    pmax = 4 if tier == "thorough" else 3
+    recs = B.records(pmax=pmax) + B.lemmas(pmax=3)
+    for x in recs:
+        if x["status"] != "discharged" and x["function"] in B.REL:
+            kind = "sym" if x["function"].startswith("sym") else "asym"
+            x["replay"] = [dict(clause=kind + ".explicit", function=x["function"], input_class="%s/replay" % x["function"], params=dict(d=dd, p=pp)) for dd in (2, 3) for pp in (2, 3)]
+    out["records"] = out["records"] + recs
+    out["instances"] += len({x["instance"] for x in recs})
+    pl = B.planted()
+    P = out["planted"]
+    for k in ("tried", "refuted"):
+        P[k] += pl[k]
+    for k in ("survivors", "anchors_missing", "detail"):
+        P[k] = list(P.get(k, [])) + pl[k]
+    per = {}
+    for x in recs:
+        if x.get("claim"):
+            per[x["function"]] = per.get(x["function"], 0) + 1
+    out["selfchecks"]["planted_bugs_all_refuted"] = {"ok": P["tried"] == P["refuted"], "detail": P}
+    out["selfchecks"]["bilinear_nonzero_claim_obligations"] = {"ok": all(per.get(g, 0) > 0 for g in list(B.REL) + ["(lemma over contracts)"]), "detail": per}
+    return out
